@@ -412,6 +412,7 @@ func (handle *writeTxnHandle) Commit() ReadTxn {
 	// load it again and modify the latest version that we now have immobilised by
 	// the root lock.
 	currentRoot := *db.root.Load()
+	verifPause("commit-root-loaded", txn.handle)
 	root := txn.tableEntries
 	var initChansToClose []chan struct{}
 
